@@ -104,12 +104,51 @@ def kind_of(item) -> str:
     return item[1][0]
 
 
+def mutate_once(t, rng):
+    """a copy of the tree that differs in exactly one place"""
+    k = t[0]
+    if k == "Variable":
+        return ("Variable", t[1] + "_")
+    if k == "Constant":
+        return ("Constant", t[1] + 1)
+    kids = spec.children(t)
+    choice = rng.random()
+    if k in ("NthPower", "NthRoot") and choice < 0.3:
+        return (k, t[1], t[2] + 1)
+    if k in ("Exponential", "Logarithm") and choice < 0.3:
+        return (k, t[1], t[2] * 2 + 1)
+    if k in spec.NARY:
+        if not kids or choice < 0.25:
+            return (k, list(kids) + [("Constant", 7)])
+        if len(kids) >= 2 and choice < 0.5 and kids[0] != kids[-1]:
+            return (k, [kids[-1]] + list(kids[1:-1]) + [kids[0]])
+        i = rng.randrange(len(kids))
+        return (k, [mutate_once(c, rng) if j == i else c for j, c in enumerate(kids)])
+    if k in spec.BINARY:
+        if choice < 0.3 and kids[0] != kids[1]:
+            return (k, kids[1], kids[0])
+        if choice < 0.65:
+            return (k, mutate_once(kids[0], rng), kids[1])
+        return (k, kids[0], mutate_once(kids[1], rng))
+    return (k, mutate_once(kids[0], rng)) + tuple(t[2:])
+
+
 def check(rep):
     model = load_model()
     pool = expression_pool(model, rep.tier)
     x, y = ("Variable", "x"), ("Variable", "y")
     t1 = ("Multiply", [x, y])
     t2 = ("Multiply", [y, x])
+    if rep.tier != "quick":
+        # random trees and one-point mutations of each (a parameter, a leaf, the argument order, the arity)
+        from ..simpengine import random_trees
+        import random as _random
+        rng = _random.Random(rep.seed + 99)
+        extra = []
+        for (t, _l) in random_trees(rep.seed, 40, 14, names=("x", "y")):
+            extra.append(t)
+            extra.append(mutate_once(t, rng))
+        pool = pool + extra
     items = [("expr", t) for t in pool] + [("point", p) for p in POINTS]
     for t in (t1, t2, x):
         for early in (False, True):
